@@ -20,12 +20,13 @@ MANIFEST = dict(
          "a former ancestor - the F10b/F10d histories are instances, C02_f10_ops_x_nonvacuous), every operation followed by a full "
          "read, from construct() and on the Pipeline model (C02_cover_sequential_partial, C02_cover_from_start_partial, "
          "C02_cover_sequential_pipeline_partial); no stale descriptor in the reader's tables at any drained point of these histories - every key of _path_for_wd and every value of _wd_for_path is a live kernel watch (clauses of the watch invariant; C02_tables_live_synced, C02_tables_live, and as C11's hypothesis C02_tidy_from); "
+         "the same when the records of an operation are read in SEVERAL reads - any cut of the batch, no operation in between: reader state, kernel and events are those of one big read (C02_cut_reads, C02_cut_paired, C02_cover_block_cuts_partial, C02_cover_sequential_pipeline_cuts_partial); "
          "the probe law (C02_probe) and the non-recursive law (C02_flat); the pinned code is "
          "refuted (C02_pinned_movein_refuted, C02_pinned_mkdir_rename_refuted, and with c_fix_moveout := c_fix_relabel := false C02_f10d_pinned_refuted, "
          "C02_f10b_pinned_stale). Extra hypotheses of the move-out theorems: full event mask; the operation right after a directory "
          "move-out is a covered operation in a directory of the tree (so it produces a record) that notifies no directory at or "
          "below the departed directory's new place (in particular not a second move-out). Stated, not proved in general "
-         "(C02_step_full): those excluded successors, a directory moved in over an empty directory, operations on the root, bursts and read cuts (carried by the sampled "
+         "(C02_step_full): those excluded successors, a directory moved in over an empty directory, operations on the root, bursts (several operations before a read) and reads that straddle two operations (carried by the sampled "
          "correspondence). "
          "Pipeline model in lock-step against the real observer on the real kernel (see C01); after every history a probe "
          "file is created in EVERY directory of the final tree and must be reported under its real path (recursive) / only "
